@@ -34,13 +34,13 @@ func stripWS(s string) string {
 
 // Case is everything that defines one generated file.
 type Case struct {
-	ID     string
-	Lay    pdfw.Layout
-	Opts   pdfw.DocOpts
-	Revs   int
-	Gens   []*pdfw.GenResult
-	Edits  []string
-	Built  *pdfw.Built
+	ID    string
+	Lay   pdfw.Layout
+	Opts  pdfw.DocOpts
+	Revs  int
+	Gens  []*pdfw.GenResult
+	Edits []string
+	Built *pdfw.Built
 }
 
 func layoutDims(l pdfw.Layout, o pdfw.DocOpts, revs int) map[string]string {
